@@ -517,7 +517,7 @@ class StyleGen(object):
                     out.append('<xsl:with-param name="%s">%s</xsl:with-param>' % (n, self.body(sc, 1, kw.pop('ctx', 'any'), novars=True, **kw)))
         return ''.join(out)
 
-    def variable(self, sc, depth, ctx, in_foreach=False, named=False, tag='variable', name=None):
+    def variable(self, sc, depth, ctx, in_foreach=False, named=False, tag='variable', name=None, noapply=False):
         """-> (xml, (name, type))"""
         r = self.r
         if name is None:
@@ -531,7 +531,7 @@ class StyleGen(object):
             e, t = self.x.typed(sc, 2)
             return '<xsl:%s name="%s" select="%s"/>' % (tag, name, e), (name, t)
         if x < 0.92:
-            b = self.body(sc, min(depth, 2), ctx, in_foreach=in_foreach, named=named, in_var=True)
+            b = self.body(sc, min(depth, 2), ctx, in_foreach=in_foreach, named=named, in_var=True, noapply=noapply)
             return '<xsl:%s name="%s">%s</xsl:%s>' % (tag, name, b, tag), (name, 'rtf')
         return '<xsl:%s name="%s"/>' % (tag, name), (name, 'string')
 
@@ -587,19 +587,19 @@ class StyleGen(object):
         return '<xsl:number%s/>' % a
 
     # -- sequence constructor
-    def body(self, sc, depth, ctx, in_foreach=False, textonly=False, named=False, in_var=False, novars=False, nitems=None):
+    def body(self, sc, depth, ctx, in_foreach=False, textonly=False, named=False, in_var=False, novars=False, nitems=None, noapply=False):
         r = self.r
         sc = list(sc)
         out = []
         n = nitems if nitems is not None else r.choice([1, 1, 2, 2, 3, 4])
         for _ in range(n):
-            out.append(self.instr(sc, depth, ctx, in_foreach, textonly, named, in_var, novars))
+            out.append(self.instr(sc, depth, ctx, in_foreach, textonly, named, in_var, novars, noapply))
         return ''.join(out)
 
-    def instr(self, sc, depth, ctx, in_foreach, textonly, named, in_var, novars):
+    def instr(self, sc, depth, ctx, in_foreach, textonly, named, in_var, novars, noapply=False):
         r = self.r
         x = r.random()
-        kw = dict(in_foreach=in_foreach, textonly=textonly, named=named, in_var=in_var)
+        kw = dict(in_foreach=in_foreach, textonly=textonly, named=named, in_var=in_var, noapply=noapply)
         if depth <= 0:
             x = x * 0.3
         if x < 0.1:
@@ -626,9 +626,11 @@ class StyleGen(object):
             srt = self.sorts(sc) if r.random() < 0.35 else ''
             kw2 = dict(kw)
             kw2['in_foreach'] = True
+            if not self._downward(sel):
+                kw2['noapply'] = True
             return '<xsl:for-each select="%s">%s%s</xsl:for-each>' % (sel, srt, self.body(sc, depth - 1, c2, **kw2))
         if x < 0.58 and not novars:
-            xml, v = self.variable(sc, depth - 1, ctx, in_foreach, named)
+            xml, v = self.variable(sc, depth - 1, ctx, in_foreach, named, noapply=noapply)
             if v[0] in [n for n, _ in sc if (n, _) not in self.globals] :
                 return ''
             sc[:] = [e for e in sc if e[0] != v[0]]
@@ -637,9 +639,9 @@ class StyleGen(object):
         if x < 0.62:
             return self.number_instr(sc, ctx)
         if x < 0.66:
-            e = r.choice([self.x.string(sc, 1), self.x.number(sc, 1), 'boolean(%s)' % self.x.boolean(sc, 1)])
+            e = r.choice(['string(%s)' % self.x.string(sc, 1), self.x.number(sc, 1), 'boolean(%s)' % self.x.boolean(sc, 1)])
             return '<xsl:copy-of select="%s"/>' % e
-        if x < 0.69 and self.named and not textonly:
+        if x < 0.69 and self.named and not textonly and not noapply:
             # call-template: a named template may only call later ones
             lo = 0
             if named is not False and named is not None and named is not True:
@@ -690,14 +692,14 @@ class StyleGen(object):
             rtf = self.x.vars_of(sc, 'rtf')
             if rtf:
                 return '<xsl:copy-of select="$%s"/>' % r.choice(rtf)
-            return '<xsl:comment>%s</xsl:comment>' % self.body(sc, 1, ctx, textonly=True, in_foreach=in_foreach, named=named)
+            return '<xsl:comment>c%s</xsl:comment>' % self.body(sc, 1, ctx, textonly=True, in_foreach=in_foreach, named=named)
         if x < 0.94:
-            return r.choice(['<xsl:comment>%s</xsl:comment>', '<xsl:processing-instruction name="t">%s</xsl:processing-instruction>',
+            return r.choice(['<xsl:comment>c%s</xsl:comment>', '<xsl:processing-instruction name="t">%s</xsl:processing-instruction>',
                              '<xsl:processing-instruction name="{local-name(.)}x">%s</xsl:processing-instruction>']) \
                 % self.body(sc, 1, ctx, textonly=True, in_foreach=in_foreach, named=named, nitems=r.choice([1, 2]))
         if x < 0.945 and not in_foreach and named is False and not in_var:
             return '<xsl:apply-imports/>'
-        if named is True:
+        if named is True or noapply:
             return self.text_piece()
         # apply-templates: strictly downward select -> termination
         a = ''
@@ -727,6 +729,12 @@ class StyleGen(object):
             elif d == 0:
                 out.append(ch)
         return out
+
+    def _downward(self, sel):
+        o = ''.join(self._outside_preds(sel))
+        return not any(t in o for t in ('$', '..', 'ancestor', 'parent', 'key(', 'document(', 'current()', 'e:node-set',
+                                        'following', 'preceding', 'self::', 'id(')) and not o.startswith('/') \
+            and ' | /' not in o and '(/' not in o
 
     def _elems_only(self, sel):
         o = ''.join(self._outside_preds(sel))
@@ -944,8 +952,13 @@ class Triggers(object):
         self.hit = set()
 
     def order_hook(self, v):
+        self.check_order(v)
+
+    def check_order(self, v):
         if _docorder_shape(v):
             self.hit.add('docorder')
+        if len(v) > 1 and len(set(id(n.doc) for n in v)) > 1:
+            self.hit.add('multidoc-order')
 
 
 def _inside(x, s):
@@ -992,8 +1005,7 @@ def run_reference(case, base, trig, emulate=()):
 
     def select_nodes(st, c, select, what):
         v = orig_select(st, c, select, what)
-        if _docorder_shape(v):
-            trig.hit.add('docorder')
+        trig.check_order(v)
         return v
 
     def fmt(nums, f, gsep=None, gsize=None):
@@ -1017,8 +1029,8 @@ def run_reference(case, base, trig, emulate=()):
 
     def copyof(self, st, c, out):
         v = self.select.eval(st, c)
-        if isinstance(v, list) and _docorder_shape(v):
-            trig.hit.add('docorder')
+        if isinstance(v, list):
+            trig.check_order(v)
         return orig_copyof(self, st, c, out)
 
     orig_at = X._ApplyTemplates.run
@@ -1089,6 +1101,8 @@ def run_reference(case, base, trig, emulate=()):
     orig_match = X._Pattern.matches
 
     def matches(self, st, node, variables):
+        if node.kind == 'attribute' and node.uri and '@' in self.text:
+            trig.hit.add('pattern-attr-ns')
         if '[' in self.text and node.kind == 'element' and node.parent is not None:
             for sib in node.parent.children:
                 if sib.kind == 'element' and sib.local == node.local and sib.uri != node.uri:
@@ -1097,6 +1111,23 @@ def run_reference(case, base, trig, emulate=()):
         return orig_match(self, st, node, variables)
 
     X._Pattern.matches = matches
+    orig_docfn = X._State.f_document
+    main_uri = base + 'main.xsl'
+
+    def f_document(self, ctx, args):
+        if len(args) > 1 and isinstance(args[1], list) and args[1]:
+            d = args[1][0].doc
+            if getattr(d, 'rtf', False) or getattr(d, 'from_rtf', False):
+                trig.hit.add('rtf-base-uri')
+        if isinstance(args[0], list):
+            for n in args[0]:
+                if len(args) == 1 and (getattr(n.doc, 'rtf', False) or getattr(n.doc, 'from_rtf', False)):
+                    trig.hit.add('rtf-base-uri')
+        elif len(args) == 1 and ctx.namespaces.get('#base') != main_uri:
+            trig.hit.add('document-base-module')
+        return orig_docfn(self, ctx, args)
+
+    X._State.f_document = f_document
     orig_sets = X._State.apply_attrsets
 
     def apply_attrsets(self, names, c, out):
@@ -1107,6 +1138,15 @@ def run_reference(case, base, trig, emulate=()):
         return orig_sets(self, names, c, out)
 
     X._State.apply_attrsets = apply_attrsets
+    orig_s2n = rx.string_to_number
+
+    def s2n(sv):
+        t = sv.strip(' \t\r\n')
+        if t == '-' or ('e' in t.lower() and t.lower().replace('e', '').replace('-', '').replace('+', '').replace('.', '').isdigit()):
+            trig.hit.add('libxml2-strnum')
+        return orig_s2n(sv)
+
+    rx.string_to_number = s2n
     rx.compare = cmp
     rx.to_boolean = tb
     X._sort_nodes = sort_nodes
@@ -1114,11 +1154,25 @@ def run_reference(case, base, trig, emulate=()):
     def attr_run(self, st, c, out):
         if self.namespace is not None:
             q = X._split_qname(self.name.eval(st, c))
-            if q is not None and q[0] and q[0] in self.nsmap and self.nsmap[q[0]] != self.namespace.eval(st, c):
+            uri = self.namespace.eval(st, c)
+            if q is not None and q[0] and q[0] in self.nsmap and self.nsmap[q[0]] != uri:
                 trig.hit.add('attr-ns-prefix-clash')
+            cur = getattr(out, 'cur', None)
+            if uri and cur is not None and cur.kind == 'element' and cur.uri == uri and not cur.prefix:
+                trig.hit.add('attr-in-default-ns')
         return orig_attr(self, st, c, out)
 
     X._Attribute.run = attr_run
+    orig_elem = X._Element.run
+
+    def elem_run(self, st, c, out):
+        if self.namespace is not None:
+            q = X._split_qname(self.name.eval(st, c))
+            if q is not None and q[0] and q[0] in self.nsmap and self.nsmap[q[0]] != self.namespace.eval(st, c):
+                trig.hit.add('element-ns-prefix-clash')
+        return orig_elem(self, st, c, out)
+
+    X._Element.run = elem_run
     X._ApplyTemplates.run = at_run
     X._ApplyImports.run = ai_run
     X._select_nodes = select_nodes
@@ -1139,9 +1193,12 @@ def run_reference(case, base, trig, emulate=()):
         X._CopyOf.run = orig_copyof
         X._ApplyTemplates.run = orig_at
         X._Attribute.run = orig_attr
+        X._Element.run = orig_elem
         rx.compare = orig_cmp
+        rx.string_to_number = orig_s2n
         X._Globals.force = orig_force
         X._Pattern.matches = orig_match
+        X._State.f_document = orig_docfn
         X._State.apply_attrsets = orig_sets
         rx.to_boolean = orig_tb
         X._sort_nodes = orig_sort
@@ -1396,11 +1453,18 @@ def main():
         bad = 0
         badseeds = []
         unsup = {}
+        trigstat = {}
         with Pool(a.j) as pool:
             for res in pool.imap_unordered(worker, jobs):
                 for seed, status, classes, detail in res:
                     stats[status] = stats.get(status, 0) + 1
+                    for c in classes:
+                        c = c.split(':')[0]
+                        e = trigstat.setdefault(c, [0, 0])
+                        e[0 if status == 'agree' else 1] += 1
                     if status == 'unsupported':
+                        if a.seeds_of and a.seeds_of in detail:
+                            print('seed %d unsupported %s' % (seed, detail))
                         k = detail[:60]
                         unsup[k] = unsup.get(k, 0) + 1
                     if status in ('agree', 'unsupported'):
@@ -1423,6 +1487,9 @@ def main():
         print('%d cases in %.1f s: %s' % (len(seeds), dt, ', '.join('%s=%d' % kv for kv in sorted(stats.items()))))
         for key, n in sorted(byclass.items(), key=lambda kv: -kv[1]):
             print('   %-14s %-50s %d' % (key[0], ','.join(key[1]) or '(none: UNEXPLAINED)', n))
+        print('trigger frequency (cases agreeing / not agreeing while the trigger fired):')
+        for k, (ag, dis) in sorted(trigstat.items()):
+            print('   %-28s %6d %6d' % (k, ag, dis))
         for k, n in sorted(unsup.items(), key=lambda kv: -kv[1])[:12]:
             print('   unsupported: %-60s %d' % (k, n))
         print('unexplained: %d %s' % (bad, sorted(badseeds)[:40]))
